@@ -28,6 +28,9 @@ func (w *World) RandomIssue(r opfix.Router) {
 	if w.R.Chance(1, 2) {
 		sub = "alice" // several tokens of one user: end_session has something to terminate
 	}
+	if len(w.LongSubs) > 0 && w.R.Chance(1, 2) { // worlds with long-subject users: they get tokens like everybody
+		sub = drv.Pick(w.R, w.LongSubs)
+	}
 	w.Issue(r, drv.Pick(w.R, issueClients), sub, drv.Pick(w.R, scopeSets))
 }
 
@@ -71,6 +74,9 @@ func (w *World) someID(prefix string) string {
 func (w *World) Adversarial() *Tok {
 	opq := w.PoolOf("opaque-at")
 	jwts := w.PoolOf("jwt-at", "idtok")
+	if len(w.LongSubs) > 0 && w.R.Chance(1, 5) { // the length of a string as a value class (long.go)
+		return w.LongAdversarial()
+	}
 	switch w.R.IntN(15) {
 	case 12, 13:
 		return w.JWTShaped()
